@@ -206,6 +206,9 @@ def gen(rng, p, typ, depth):
             return x
         if x[0] != "lit" and not p.neg:
             return x
+        if x[0] != "lit" and rng.random() < 0.12:
+            for _ in range(rng.randint(1, 5)):      # stacked signs: - - - -(a add b)
+                x = ("un", "neg", x)
         return ("un", "neg", x)
     if typ == "str" and p.str_add and r < 0.45:
         return ("bin", "add", gen(rng, p, "str", depth - 1), gen(rng, p, "str", depth - 1))
